@@ -17,6 +17,12 @@ def main():
         ("renormalizer.mps.mp", ["calc_vn_entropy", "os", "shutil"]),
         ("renormalizer.mps.gs", ["davidson"]),
         ("renormalizer.mps.matrix", ["Matrix"]),
+        ("renormalizer.mps.mps", ["solve_ivp"]),
+        ("renormalizer.mps.gs", ["np", "eigh_iterative"]),
+        ("renormalizer.tn.time_evolution", ["solve_ivp"]),
+        ("renormalizer.tn.gs", ["optimize_ttns"]),
+        ("renormalizer.tn.utils_eph", ["max_entangled_ex"]),
+        ("renormalizer.tn.tree", ["from_mps"]),
     ]
     bad = []
     for mod, names in targets:
